@@ -474,6 +474,7 @@ func runLogProp(cfg logRunCfg) func(seed int64, tier string, outDir string) *res
 			}
 			if cfg.prop == "C04" {
 				runAppendScenarios(xr, na, st, xf)
+				runPartialJoinScenarios(xr, na, st, xf)
 			} else if cfg.prop == "C16" {
 				runGapScenarios(xr, na/5+1, st, xf)
 				runMixedSortScenarios(xr, na/2+1, st, xf)
@@ -485,6 +486,9 @@ func runLogProp(cfg logRunCfg) func(seed int64, tier string, outDir string) *res
 				runPartialJoinScenarios(xr, na, st, xf)
 				if cfg.prop == "C02" {
 					runPinFaultScenarios(xr, na, st, xf)
+				}
+				if cfg.prop == "C02" || cfg.prop == "C01" {
+					runOpenedJoinScenarios(xr, na, st, xf)
 				}
 				if cfg.prop == "C03" {
 					runSeededClockScenarios(xr, na, st, xf)
